@@ -201,7 +201,9 @@ def check_pel(ctx, pel, plugins, rng, via=None):
                 ctx.violation("C18/src-parser-call/module", "SRC %r was handed to %s, expected %s" % (ref.strip(), c["module"], mod), data=data)
             elif c["refcode"].strip() != ref.strip():
                 ctx.violation("C18/src-parser-call/refcode", "SRC parser got reference code %r, the section holds %r" % (c["refcode"], ref), data=data)
-            elif len(c["words"]) != 8 or any(w is not None and g != w for g, w in zip(c["words"], words)):
+            elif len(c["words"]) != 8 or any(g != (w if w is not None else "00000000") for g, w in zip(c["words"], words)):
+                # words beyond the section's valid word count are not part of the SRC: the parser gets 00000000 for them (as
+                # the section's own display leaves them out), never whatever the unused bytes hold
                 ctx.violation("C18/src-parser-call/words", "SRC parser got words %s, the section holds words 2..9 = %s" % (c["words"], words), data=data)
     # --- results: SRC Details of fixture SRC parsers
     names = pel.names()
